@@ -1,0 +1,15 @@
+//go:build verif
+
+package ship
+
+// Hook for the verification harness in /verif (build tag "verif"). Add-only: nothing
+// here is compiled into a normal build.
+
+// VerifApproveHandshake ends the handshake the way the last handshake step does
+// (approveHandshake): the SPINE reader is requested from the info provider, the state
+// becomes complete and the SPINE messages buffered so far are delivered. It lets the
+// harness send SPINE payloads through WriteShipMessageWithPayload and receive them through
+// HandleIncomingWebsocketMessage without replaying a whole handshake.
+func (c *ShipConnection) VerifApproveHandshake() {
+	c.approveHandshake()
+}
